@@ -148,7 +148,8 @@ def run_case(case):
                                f"instance was asked again with tolerance {strict:.3g} < deviation and returned matrices instead of a ValueError")
         except ValueError as e:
             m2 = re.search(r"state (\d+), action (\d+)", str(e))
-            if not m2 or devi[int(m2.group(1)), int(m2.group(2))] <= strict:
+            if not m2 or not (0 <= int(m2.group(1)) < S and 0 <= int(m2.group(2)) < A) \
+                    or devi[int(m2.group(1)), int(m2.group(2))] <= strict:
                 return dict(status="violation", kind="error-names-wrong-pair", detail=f"second call: {str(e)[:200]}")
         again += 1
     out2 = problem.build_transition_and_reward_matrices(normalization_tolerance=tol * (10.0 if variant == "exact" else 1.0))
